@@ -16,6 +16,9 @@ at position ``pos`` and then taken out with the default non-safe ``Graph.remove`
 their inputs).  Being in no graph they are outside the statement's relation; the oracle ignores
 them and nodes of the graphs may even use their outputs (producer located in no graph).
 
+Optionally ``"history"``: the initial orders are reached through public move operations instead
+of being constructed directly (see the section "histories" below).
+
 Every graph other than 0 is owned by exactly one attribute of exactly one node.  Specs are
 **lexically well scoped**: a node of graph H refers only to outputs of nodes (or inputs) of H or
 of graphs enclosing H.
@@ -510,14 +513,34 @@ def remove_nodes(spec: Spec, doomed: set[int], sub: int | None = None,
              for nid, n in enumerate(spec["nodes"]) if nid in nmap]
     detached = [dict(d, scope=gmap[d["scope"]], inputs=[fix(r) for r in d["inputs"]])
                 for did, d in enumerate(spec.get("detached", [])) if did in dmap]
-    return {"graphs": graphs, "nodes": nodes, "detached": detached}, (gmap[sub] if sub is not None else None)
+    new = {"graphs": graphs, "nodes": nodes, "detached": detached}
+    if "history" in spec:
+        # the same moves without the removed nodes; a move whose anchor is gone is dropped
+        h = spec["history"]
+        moves = []
+        for kind, gid, anchor, moved, form in h["moves"]:
+            moved = [nmap[x] for x in moved if x in nmap]
+            if gid not in gmap or not moved or (anchor is not None and anchor not in nmap):
+                continue
+            if form == "node" and len(moved) != 1:
+                form = "list"
+            moves.append([kind, gmap[gid], None if anchor is None else nmap[anchor], moved, form])
+        new["history"] = {"start": [[nmap[x] for x in o if x in nmap] for gid, o in enumerate(h["start"]) if gid in gmap],
+                          "moves": moves}
+        new = settle_history(new)
+        if new is None:
+            return None
+    return new, (gmap[sub] if sub is not None else None)
 
 
 def drop_input(spec: Spec, nid: int, slot: int, to_none: bool, detached: bool = False) -> Spec:
     if detached:
         flipped = {"graphs": spec["graphs"], "nodes": spec.get("detached", [])}
-        return {"graphs": spec["graphs"], "nodes": spec["nodes"],
-                "detached": drop_input(flipped, nid, slot, to_none)["nodes"]}
+        out = {"graphs": spec["graphs"], "nodes": spec["nodes"],
+               "detached": drop_input(flipped, nid, slot, to_none)["nodes"]}
+        if "history" in spec:
+            out["history"] = spec["history"]
+        return out
     nodes = []
     for k, n in enumerate(spec["nodes"]):
         if k == nid:
@@ -528,12 +551,20 @@ def drop_input(spec: Spec, nid: int, slot: int, to_none: bool, detached: bool = 
                 del ins[slot]
             n = dict(n, inputs=ins)
         nodes.append(n)
-    return {"graphs": spec["graphs"], "nodes": nodes, "detached": spec.get("detached", [])}
+    out = {"graphs": spec["graphs"], "nodes": nodes, "detached": spec.get("detached", [])}
+    if "history" in spec:
+        out["history"] = spec["history"]
+    return out
 
 
 def spec_size(spec: Spec) -> int:
     every = spec["nodes"] + spec.get("detached", [])
-    return 10 * len(every) + sum(len(n["inputs"]) + sum(1 for r in n["inputs"] if r is not None) for n in every)
+    size = 10 * len(every) + sum(len(n["inputs"]) + sum(1 for r in n["inputs"] if r is not None) for n in every)
+    if "history" in spec:
+        h = spec["history"]
+        size += 2 + sum(4 + len(m[3]) for m in h["moves"])
+        size += sum(1 for o, g in zip(h["start"], spec["graphs"]) if o != g["order"])
+    return size
 
 
 def describe(spec: Spec) -> str:
@@ -560,4 +591,367 @@ def describe(spec: Spec) -> str:
     for did, d in enumerate(spec.get("detached", [])):
         how = "never added to a graph" if d["how"] == "never" else f"was in g{d['scope']} at position {d['pos']}, then g{d['scope']}.remove(d{did})"
         lines.append(f"detached d{did}({', '.join(ref(r) for r in d['inputs'])}) [{how}]")
+    if "history" in spec:
+        lines.append(describe_history(spec))
+    return "\n".join(lines)
+
+
+# ---------------------------------------------------------------------------------------------
+# histories: the initial order of a graph reached through the public move operations
+# ---------------------------------------------------------------------------------------------
+# A unit spec may carry ``"history": {"start": [order of every graph], "moves": [move, ...]}``: the
+# graphs are constructed in the ``start`` orders and then the moves are applied, one after the
+# other, through the public API; the result must be the ``order`` stored in ``graphs`` (the order
+# the sort sees).  A move is ``[kind, graph id, anchor node id | None, [node ids], form]``:
+#
+#   Graph.insert_after / Graph.insert_before / Node.append / Node.prepend   (anchor, nodes)
+#   Graph.append (one node) / Graph.extend (nodes) / Graph.remove (nodes; default non-safe)
+#
+# All of them accept nodes that already are in the graph (they are moved) and nodes that were
+# taken out with Graph.remove before (they are re-added).  ``form`` says how the node argument is
+# passed: "node" (a single Node), "list", "tuple" or "iter" (a one-shot iterator).
+# The list model below is the harness's own statement of what the moves mean (the documented
+# semantics: the nodes end up, in the given order, directly after/before the anchor or at the
+# end); c12_build checks the real graphs against it.
+MOVE_KINDS = ("Graph.insert_after", "Graph.insert_before", "Node.append", "Node.prepend",
+              "Graph.append", "Graph.extend", "Graph.remove")
+
+
+def _place_after(lst: list[int], point: int | None, values: list[int], out: set[int]) -> None:
+    for v in values:
+        if v == point:
+            continue
+        if v in lst:
+            lst.remove(v)
+        lst.insert(0 if point is None else lst.index(point) + 1, v)
+        out.discard(v)
+        point = v
+
+
+def model_move(lst: list[int], out: set[int], move: list) -> set[str] | None:
+    """Apply one move to the order ``lst`` of its graph (``out`` = nodes currently taken out of a
+    graph).  Returns the flags of the move or None if its preconditions do not hold (the real call
+    would raise, or the move is meaningless)."""
+    kind, _gid, anchor, moved, _form = move
+    if not moved:
+        return None
+    before = list(lst)
+    before_out = set(out)
+    if kind == "Graph.remove":
+        if any(v not in lst for v in moved):
+            return None
+        for v in set(moved):
+            lst.remove(v)
+            out.add(v)
+    else:
+        if any(v not in lst and v not in out for v in moved):
+            return None
+        if kind in ("Graph.insert_after", "Node.append"):
+            if anchor not in lst:
+                return None
+            _place_after(lst, anchor, moved, out)
+        elif kind in ("Graph.insert_before", "Node.prepend"):
+            if anchor not in lst:
+                return None
+            k = lst.index(anchor)
+            _place_after(lst, lst[k - 1] if k else None, moved, out)
+        elif kind == "Graph.append":
+            if len(moved) != 1:
+                return None
+            _place_after(lst, lst[-1] if lst else None, moved, out)
+        elif kind == "Graph.extend":
+            for v in moved:
+                _place_after(lst, lst[-1] if lst else None, [v], out)
+        else:
+            raise AssertionError(kind)
+    flags = set()
+    if lst == before and out == before_out:
+        flags.add("no-op")
+    if before and before[-1] in moved:
+        flags.add("last")
+    if before and before[0] in moved:
+        flags.add("first")
+    if any(v in before_out for v in moved):
+        flags.add("re-add")
+    if len(set(moved)) > 1:
+        flags.add("multi")
+    return flags
+
+
+def run_history(spec: Spec) -> tuple[list[list[int]], list[set[str]]] | None:
+    """Final order of every graph according to the list model and the flags of every move; None
+    if some move is not executable or a node stays taken out."""
+    h = spec["history"]
+    cur = [list(o) for o in h["start"]]
+    out: set[int] = set()
+    flags = []
+    for move in h["moves"]:
+        if not (0 <= move[1] < len(cur)):
+            return None
+        if any(spec["nodes"][v]["g"] != move[1] for v in move[3]) or \
+                (move[2] is not None and spec["nodes"][move[2]]["g"] != move[1]):
+            return None
+        f = model_move(cur[move[1]], out, move)
+        if f is None:
+            return None
+        flags.append(f)
+    if out:
+        return None
+    return cur, flags
+
+
+def move_tag(move: list, flags: set[str]) -> str:
+    order = ["no-op", "last", "first", "re-add", "multi"]
+    fl = [f for f in order if f in flags]
+    return move[0] + (f"[{','.join(fl)}]" if fl else "")
+
+
+def history_tags(spec: Spec) -> list[str]:
+    res = run_history(spec)
+    if res is None:
+        return ["?"]
+    return sorted({move_tag(m, f) for m, f in zip(spec["history"]["moves"], res[1])})
+
+
+def strip_history(spec: Spec) -> Spec:
+    return {k: v for k, v in spec.items() if k != "history"}
+
+
+def settle_history(spec: Spec) -> Spec | None:
+    """After a reduction: make ``order`` of every graph what the (reduced) history reaches; None
+    if the reduced history is not executable any more."""
+    if "history" not in spec:
+        return spec
+    res = run_history(spec)
+    if res is None:
+        return None
+    return dict(spec, graphs=[{"nin": g["nin"], "order": o} for g, o in zip(spec["graphs"], res[0])])
+
+
+def _form(rng, n: int, single_ok: bool = True) -> str:
+    if n == 1 and single_ok and rng.random() < 0.6:
+        return "node"
+    return rng.choice(["list", "list", "tuple", "iter"])
+
+
+def _ins_kind(rng, after: bool) -> str:
+    if after:
+        return "Node.append" if rng.random() < 0.35 else "Graph.insert_after"
+    return "Node.prepend" if rng.random() < 0.35 else "Graph.insert_before"
+
+
+def _chunks(rng, items: list[int]) -> list[list[int]]:
+    out, k = [], 0
+    while k < len(items):
+        step = rng.choice([1, 1, 2, 3, 5, len(items)])
+        out.append(items[k:k + step])
+        k += step
+    return out
+
+
+def _random_move(rng, gid: int, cur: list[int], out: set[int]) -> list | None:
+    pool = cur + sorted(out)
+    if not pool:
+        return None
+    kind = rng.choice(MOVE_KINDS)
+    if kind == "Graph.remove":
+        if not cur:
+            return None
+        moved = rng.sample(cur, min(len(cur), rng.choice([1, 1, 2, 3])))
+        return [kind, gid, None, moved, _form(rng, len(moved))]
+    r = rng.random()
+    if r < 0.25 and cur:
+        moved = [cur[-1]]
+    elif r < 0.4 and cur:
+        moved = [cur[0]]
+    else:
+        moved = rng.sample(pool, min(len(pool), rng.choice([1, 1, 1, 2, 3])))
+    if kind == "Graph.append":
+        return [kind, gid, None, moved[:1], "node"]
+    if kind == "Graph.extend":
+        return [kind, gid, None, moved, _form(rng, len(moved), False)]
+    if not cur:
+        return None
+    anchor = rng.choice(cur)
+    return [kind, gid, anchor, moved, _form(rng, len(moved))]
+
+
+def _noop_move(rng, gid: int, T: list[int]) -> list | None:
+    """A candidate move that should leave the order ``T`` as it is (verified by the caller)."""
+    n = len(T)
+    r = rng.random()
+    x = rng.random()
+    if n >= 2:
+        i = (n - 2) if x < 0.45 else (0 if x < 0.65 else rng.randrange(n - 1))
+    else:
+        i = 0
+    if r < 0.30 and n >= 2:  # the node that already follows the anchor
+        return [_ins_kind(rng, True), gid, T[i], [T[i + 1]], _form(rng, 1)]
+    if r < 0.50 and n >= 2:  # the node that already precedes the anchor
+        return [_ins_kind(rng, False), gid, T[i + 1], [T[i]], _form(rng, 1)]
+    if r < 0.58 and n >= 2:  # the run that already follows / precedes the anchor
+        k = rng.choice([2, 3, n])
+        if rng.random() < 0.5:
+            a = rng.choice([max(0, n - 1 - k), rng.randrange(n - 1)])
+            return [_ins_kind(rng, True), gid, T[a], T[a + 1:a + 1 + k], _form(rng, 2)]
+        a = rng.choice([min(n - 1, k), rng.randrange(1, n)])
+        return [_ins_kind(rng, False), gid, T[a], T[max(0, a - k):a], _form(rng, 2)]
+    if r < 0.68:  # a node after / before itself
+        a = rng.choice([T[-1], T[0], rng.choice(T)])
+        return [_ins_kind(rng, rng.random() < 0.5), gid, a, [a], _form(rng, 1)]
+    if r < 0.76 and n >= 2:  # anchor followed by its successor / predecessor followed by the anchor
+        if rng.random() < 0.5:
+            return [_ins_kind(rng, True), gid, T[i], [T[i], T[i + 1]], _form(rng, 2)]
+        return [_ins_kind(rng, False), gid, T[i + 1], [T[i], T[i + 1]], _form(rng, 2)]
+    if r < 0.86:
+        return ["Graph.append", gid, None, [T[-1]], "node"]
+    k = rng.choice([1, 2, 3, n])
+    return ["Graph.extend", gid, None, T[-k:], _form(rng, 2)]
+
+
+def _graph_history(rng, gid: int, T: list[int]) -> tuple[list[int], list[list]]:
+    n = len(T)
+    big = n > 10
+    # 1. where the graph starts
+    how = rng.choice(["same", "same", "shuffled", "shuffled", "reversed", "displaced", "displaced", "rotated"])
+    S = list(T)
+    if how == "shuffled":
+        rng.shuffle(S)
+    elif how == "reversed":
+        S.reverse()
+    elif how == "rotated":
+        k = rng.randrange(n)
+        S = S[k:] + S[:k]
+    elif how == "displaced":
+        for _ in range(rng.choice([1, 1, 2, 3])):
+            v = S.pop(rng.randrange(len(S)))
+            S.insert(rng.choice([0, len(S), rng.randrange(len(S) + 1)]), v)
+    cur, out, moves = list(S), set(), []
+
+    def emit(move: list | None) -> bool:
+        if move is None:
+            return False
+        c, o = list(cur), set(out)
+        if model_move(c, o, move) is None:
+            return False
+        cur[:] = c
+        out.clear()
+        out.update(o)
+        moves.append(move)
+        return True
+
+    # 2. arbitrary moves
+    for _ in range(rng.choice([0, 0, 1, 1, 2, 3])):
+        emit(_random_move(rng, gid, cur, out))
+    # 3. moves that establish T
+    strategy = rng.choice(["forward", "forward", "backward", "backward", "extend", "after", "before", "none"]
+                          if not big else
+                          ["forward", "backward", "extend", "extend", "after", "before", "none"])
+    p_again = rng.choice([0.0, 0.15, 0.15, 1.0]) if not big else rng.choice([0.0, 0.05])
+    if strategy == "backward":
+        for i in reversed(range(n)):
+            placed = len(cur) >= n - i and cur[-(n - i)] == T[i]
+            if placed and rng.random() >= p_again:
+                continue
+            if i == n - 1:
+                others = [v for v in cur if v != T[i]]
+                r = rng.random()
+                if r < 0.4 or not others:
+                    emit(["Graph.append", gid, None, [T[i]], "node"])
+                elif r < 0.6:
+                    emit(["Graph.extend", gid, None, [T[i]], _form(rng, 1, False)])
+                else:
+                    emit([_ins_kind(rng, True), gid, others[-1], [T[i]], _form(rng, 1)])
+            else:
+                emit([_ins_kind(rng, False), gid, T[i + 1], [T[i]], _form(rng, 1)])
+    elif strategy == "extend":
+        for chunk in _chunks(rng, T):
+            if len(chunk) == 1 and rng.random() < 0.5:
+                emit(["Graph.append", gid, None, chunk, "node"])
+            else:
+                emit(["Graph.extend", gid, None, chunk, _form(rng, len(chunk), False)])
+    elif strategy == "after":
+        if not cur:
+            emit(["Graph.append", gid, None, [T[0]], "node"])
+        elif cur[0] != T[0] or rng.random() < p_again:
+            emit([_ins_kind(rng, False), gid, cur[0], [T[0]], _form(rng, 1)])
+        last = T[0]
+        for chunk in _chunks(rng, T[1:]):
+            emit([_ins_kind(rng, True), gid, last, chunk, _form(rng, len(chunk))])
+            last = chunk[-1]
+    elif strategy == "before":
+        emit(["Graph.append", gid, None, [T[-1]], "node"])
+        for chunk in _chunks(rng, T[:-1]):
+            emit([_ins_kind(rng, False), gid, T[-1], chunk, _form(rng, len(chunk))])
+    # the forward pass also completes whatever the strategy above left undone (strategy "none",
+    # nodes still taken out)
+    for i in range(n):
+        at = cur[i] if i < len(cur) else None
+        if at == T[i] and not (strategy == "forward" and rng.random() < p_again):
+            continue
+        if i == 0:
+            if not cur:
+                emit(["Graph.append", gid, None, [T[0]], "node"])
+            else:
+                emit([_ins_kind(rng, False), gid, cur[0], [T[0]], _form(rng, 1)])
+        elif at is not None and at != T[i] and rng.random() < 0.4:
+            emit([_ins_kind(rng, False), gid, at, [T[i]], _form(rng, 1)])
+        else:
+            emit([_ins_kind(rng, True), gid, T[i - 1], [T[i]], _form(rng, 1)])
+    assert cur == T and not out, "C12 harness: history does not reach the order"
+    # 4. moves to where the node already is
+    for _ in range(rng.choice([0, 1, 1, 1, 2, 3])):
+        mv = _noop_move(rng, gid, T)
+        if mv is not None:
+            c, o = list(cur), set(out)
+            f = model_move(c, o, mv)
+            if f is not None and "no-op" in f:
+                moves.append(mv)
+    return S, moves
+
+
+def add_history(rng, spec: Spec) -> Spec:
+    """The same unit with its initial orders reached through move operations (root graph always,
+    nested graphs mostly)."""
+    start, moves = [], []
+    per_graph = []
+    for gid, gr in enumerate(spec["graphs"]):
+        T = list(gr["order"])
+        if not T or (gid and rng.random() < 0.3):
+            start.append(T)
+            continue
+        S, mv = _graph_history(rng, gid, T)
+        start.append(S)
+        per_graph.append(mv)
+    # interleave the per-graph sequences (keeping each graph's own sequence in order)
+    while per_graph:
+        k = rng.randrange(len(per_graph))
+        take = rng.choice([1, 2, len(per_graph[k])])
+        moves.extend(per_graph[k][:take])
+        del per_graph[k][:take]
+        if not per_graph[k]:
+            del per_graph[k]
+    out = dict(spec, history={"start": start, "moves": moves})
+    res = run_history(out)
+    assert res is not None and res[0] == [g["order"] for g in spec["graphs"]], "C12 harness: history generator"
+    return out
+
+
+def describe_history(spec: Spec) -> str:
+    if "history" not in spec:
+        return ""
+    h = spec["history"]
+    res = run_history(spec)
+    lines = ["initial order reached by: graphs constructed as " +
+             "; ".join(f"g{gid}={['n%d' % x for x in o]}" for gid, o in enumerate(h["start"]) if o) + ", then"]
+    for k, (kind, gid, anchor, moved, form) in enumerate(h["moves"]):
+        arg = f"n{moved[0]}" if form == "node" else f"{form}({', '.join('n%d' % x for x in moved)})"
+        if kind.startswith("Node."):
+            call = f"n{anchor}.{kind[5:]}({arg})"
+        elif anchor is not None:
+            call = f"g{gid}.{kind[6:]}(n{anchor}, {arg})"
+        else:
+            call = f"g{gid}.{kind[6:]}({arg})"
+        fl = sorted(res[1][k]) if res is not None else []
+        lines.append(f"  {call}" + (f"   # {', '.join(fl)}" if fl else ""))
     return "\n".join(lines)
